@@ -146,6 +146,9 @@ func (c Commands) MarshalBinary() ([]byte, error) {
 func (c *Commands) UnmarshalBinary(uplink bool, data []byte) error {
 	var i int
 
+	// reset the commands (in case c has been used before)
+	*c = nil
+
 	for i < len(data) {
 		var cmd Command
 		if err := cmd.UnmarshalBinary(uplink, data[i:]); err != nil {
@@ -445,6 +448,7 @@ func (p *DevUpgradeImageAnsPayload) UnmarshalBinary(data []byte) error {
 	}
 
 	p.Status.UpImageStatus = UpImageStatus(data[0] & 0x3)
+	p.nextFirmwareVersion = nil
 
 	if p.Status.IsFirmwareImageValid() {
 		if len(data) < p.Size() {
